@@ -29,6 +29,10 @@ def writers():
                         field(5, "optional", M(T("string"), M(T("i32"), T("string")))), field(6, "optional", L(T("string"))),
                         field(7, "optional", L(T("binary"))), field(8, "optional", M(T("string"), T("string"))),
                         field(9, "optional", L(ST("WIn", True))), field(10, "optional", M(T("string"), SET(T("i8"))))])
+    # by-value elements whose reader keeps only fixed-size fields plus the holder
+    d["WFx"] = struct([field(1, "default", T("i32")), field(2, "default", T("i64")), field(3, "default", T("string")), field(4, "default", T("i16"))])
+    d["WFxC"] = struct([field(1, "default", L(ST("WFx", False))), field(2, "default", M(T("string"), ST("WFx", False))),
+                        field(3, "default", ST("WFx", False)), field(4, "default", SET(ST("WFx", False))), field(5, "default", M(T("i32"), ST("WFx", True)))])
     return d
 
 
@@ -95,6 +99,11 @@ def build_pairs(rng, quick=True):
     f = copy.deepcopy(win); f[0]["def"] = [0, 0, 0, 77]
     tin_init = P.reader("WIn", f, "in-init", init=True)
     P.defs[tin_init]["fields"][1]["def"] = {"p": 0}
+    wfx = W["WFx"]["fields"]
+    tfx_u = P.reader("WFx", wfx[:2], "fx-fixed-holder", unk=True)
+    tfx_n = P.reader("WFx", wfx[:2], "fx-fixed-noholder")
+    for mp in ({"WFx": tfx_u}, {"WFx": tfx_n}):
+        P.reader("WFxC", W["WFxC"]["fields"], "fxc/" + mp["WFx"], unk=True, mapping=mp)
     for wname in ("WScal", "WCont", "WOpt"):
         wf = W[wname]["fields"]
         inner_maps = [{"WIn": tin_same}] if wname != "WCont" else [
